@@ -16,6 +16,8 @@ from harness.model import Model, diff_dumps
 
 _APP = None
 _MODEL = None
+_SHRUNK = set()        # signatures already minimised in this worker (one minimised replay per signature is enough)
+_SHRINK_SPENT = [0.0]  # seconds spent shrinking in this worker; capped so that a broken tree does not stall the check
 
 
 def _init(use_model):
@@ -139,7 +141,13 @@ def case(args):
                     if x['signature'] in seen:
                         continue
                     seen.add(x['signature'])
-                    small = shrink(hist, x['signature'], mons, use_model and x['kind'] == 'correspondence') if len(hist) > 1 else hist
+                    if len(hist) > 1 and x['signature'] not in _SHRUNK and _SHRINK_SPENT[0] < 24.0:
+                        _SHRUNK.add(x['signature'])
+                        t_s = time.time()
+                        small = shrink(hist, x['signature'], mons, use_model and x['kind'] == 'correspondence')
+                        _SHRINK_SPENT[0] += time.time() - t_s
+                    else:
+                        small = hist
                     x['replay'] = {'type': 'history', 'ops': small, 'monitors': list(mons), 'seed': seed,
                                    'expected': 'no violation of the monitored property / model agreement',
                                    'observed': x['detail']}
